@@ -73,6 +73,7 @@ DEFAULT_CFG = {
     "c_drop_first": 0,        # scripted fault: the first N client datagrams are lost
     "blackout_from": None,    # scripted fault: every datagram sent at/after this time (s after start) is lost
     "blackout_until": None,   # ... and before this time (None = forever)
+    "c_cert": None,           # name of a vlib.certs chain the CLIENT presents on CertificateRequest
     "tickets": None,          # {"client": [], "server": {}} session-ticket store shared between worlds
     "c_max_streams": None,    # (bidi, uni) stream-count limits advertised by the client
     "s_max_streams": None,
@@ -91,6 +92,9 @@ def make_configs(cfg):
     c.original_version = cfg["version"]
     c.supported_versions = list(cfg["c_supported"] or ([V1, V2] if cfg["version"] == V1 else [V2, V1]))
     c.quantum_readiness_test = cfg["quantum"]
+    if cfg.get("c_cert"):
+        # the client has a certificate of its own (used when the server asks for one)
+        c.certificate, c.certificate_chain, c.private_key = _load_chain(cfg["c_cert"])
     s = QuicConfiguration(is_client=False, alpn_protocols=list(cfg.get("s_alpn") or cfg["alpn"]))
     s.certificate, s.certificate_chain, s.private_key = _load_chain(cfg["chain"])
     s.congestion_control_algorithm = cfg["cc"]
